@@ -1696,9 +1696,11 @@ class TaskScenario(ScenarioData):
                 # Look up resource by ID
                 for resource in self.project.resources:
                     if resource.id == res:
-                        resources.append(resource)
+                        # (a resource named twice still is one resource)
+                        if resource not in resources:
+                            resources.append(resource)
                         break
-            else:
+            elif res not in resources:
                 # Already a resource object
                 resources.append(res)
 
